@@ -376,12 +376,14 @@ func (m *Map[K, V, H]) Iter() func() (K, V, bool) {
 		return func() (k K, v V, ok bool) { return }
 	}
 	gi := 0
-	grp := &m.groups[0]
 	i := -1
 	return func() (k K, v V, ok bool) {
 		if gi >= len(m.groups) {
 			return
 		}
+		// grp must not be kept between calls because the groups may be replaced
+		// e.g. SuObject copy-on-write, after which a copy owns the old groups
+		grp := &m.groups[gi]
 		for {
 			if i++; i >= groupSize {
 				i = 0
